@@ -15,7 +15,41 @@ Definition in_fragment (t : node) : bool :=
   | None => false
   end.
 
+(* does a top-level statement (re)bind one of write, toa, aton?  (assignments inside function bodies
+   bind locals) *)
+Fixpoint rebinds_builtin (t : node) : bool :=
+  match t with
+  | NAssign (NName g) e => (match bop_of_name g with Some _ => true | None => false end) || rebinds_builtin e
+  | NAssign _ e => rebinds_builtin e
+  | NBlock l => existsb rebinds_builtin l
+  | NList l => existsb rebinds_builtin l
+  | NIf c b => rebinds_builtin c || rebinds_builtin b
+  | NIfElse c a b => rebinds_builtin c || rebinds_builtin a || rebinds_builtin b
+  | NWhile c b => rebinds_builtin c || rebinds_builtin b
+  | NFor vs its b =>
+      existsb (fun v => match v with
+                        | NName g => match bop_of_name g with Some _ => true | None => false end
+                        | _ => false
+                        end) vs || existsb rebinds_builtin its || rebinds_builtin b
+  | NBin _ l r => rebinds_builtin l || rebinds_builtin r
+  | NUn _ x => rebinds_builtin x
+  | NIndexAt a i => rebinds_builtin a || rebinds_builtin i
+  | NIndexFromTo a f x => rebinds_builtin a || rebinds_builtin f || rebinds_builtin x
+  | NCall f args => rebinds_builtin f || existsb rebinds_builtin args
+  | NReturn x | NYield x | NWrite x | NAton x | NToa x | NExit x => rebinds_builtin x
+  | _ => false
+  end.
+
+(* the trees of one session that lie in the fragment while the built-in names still hold the built-ins
+   (a for loop binding "write" as its variable counts as a rebinding too: its variables are scanned) *)
+Fixpoint count_fragment (trees : list node) (intact : bool) : nat :=
+  match trees with
+  | [] => 0
+  | t :: r =>
+      ((if intact && in_fragment t then 1 else 0) + count_fragment r (intact && negb (rebinds_builtin t)))%nat
+  end.
+
 (* 100000 * (trees inside the fragment) + (all trees) *)
 Definition chk_fragment (l : list ginput) : Z :=
   let trees := List.concat (map g_trees l) in
-  100000 * Z.of_nat (List.length (filter in_fragment trees)) + Z.of_nat (List.length trees).
+  100000 * Z.of_nat (count_fragment trees true) + Z.of_nat (List.length trees).
